@@ -102,6 +102,15 @@ def run(c):
             xc, yc = c["xc"], c["yc"]
             im = np.asarray(r.render_source(dict(xc=xc, yc=yc, flux=flux), "pointsource"), np.float64)
             peak = flux * psf.max()
+            # the multi-source entry point (FitMulti, multi-band fitters) must apply the PSF exactly like render_source
+            try:
+                im_m = np.asarray(r.render_for_model({"xc_0": xc, "yc_0": yc, "flux_0": flux}, ["pointsource"], ""), np.float64)
+                dm = np.abs(im_m - im).max() / peak
+                out.setdefault("dev", {})[kind + "_for_model"] = float(dm)
+                if dm > 2e-5:
+                    out["oracle"].append("%s: render_for_model of a single point source differs from render_source by %.3g of the peak (PSF applied differently)" % (kind, dm))
+            except Exception as ex:     # noqa
+                out["oracle"].append("%s: render_for_model raised %s: %s" % (kind, type(ex).__name__, str(ex)[:100]))
             integer = float(xc).is_integer() and float(yc).is_integer()
             if integer and P % 2 == 1:
                 want = embed(N, psf, yc, xc, flux)
